@@ -49,8 +49,26 @@ func (cfg *c15Cfg) rule() string {
 			s += fmt.Sprintf(" Accept%sStream (with a live context when the model says a stream is queued, with a cancelled context otherwise);", map[int]string{0: "", 1: "Uni"}[t])
 		}
 	}
-	if cfg.app {
+	if cfg.tpStart {
+		s += fmt.Sprintf(" the peer's transport parameters (max streams %v, reset_stream_at=%v) are delivered before the first operation;", cfg.tp, cfg.rsa)
+	} else if cfg.tparams && cfg.rsa {
+		s += " the transport parameters carry reset_stream_at;"
+	}
+	if cfg.restore {
+		s += " 0-RTT: the remembered transport parameters (same stream limits, no reset_stream_at) are restored before the first operation;"
+	}
+	if cfg.zeroWin {
+		s += " streams start with a send window of 0;"
+	}
+	if cfg.app && !cfg.fine {
 		s += " per held stream: Read-to-error, CancelRead, Close, CancelWrite, flush (pop + acknowledge FIN / RESET_STREAM) - completion reaches the map through the streams' own onStreamCompleted;"
+	}
+	if cfg.app && cfg.fine {
+		cr := " CancelRead,"
+		if cfg.noCancelR {
+			cr = ""
+		}
+		s += fmt.Sprintf(" per held stream: Read-to-error,%s Write (%d bytes, up to %d times), SetReliableBoundary, Close, CancelWrite, pop the next STREAM frame, pop the queued RESET_STREAM / RESET_STREAM_AT frame, acknowledge or lose any frame in flight (up to %d per stream, any order) - completion reaches the map through the streams' own onStreamCompleted;", cr, c15WriteLen, c15MaxWrites, c15MaxInFlight)
 	}
 	if cfg.direct {
 		s += " DeleteStream called directly for any open incoming stream, accepted or not;"
@@ -169,6 +187,35 @@ func c15Zero(p protocol.Perspective, lim [2]int) func(bool) *c15Cfg {
 	}
 }
 
+// rel-in: incoming bidirectional streams whose send half is transmitted one frame at a time
+// (c15_rel_test.go): the peer negotiated RESET_STREAM_AT, streams start blocked on flow control.
+func c15RelIn(p protocol.Perspective, lim int, small int, dq, dt int) func(bool) *c15Cfg {
+	return func(th bool) *c15Cfg {
+		cfg := &c15Cfg{pers: p, lim: [2]int{lim, 2}, app: true, fine: true, rsa: true, tpStart: true, zeroWin: true, noCancelR: true, tp: [2]int{1, 1}, depth: c15Pick(th, dq, dt)}
+		cfg.frameMax[0] = lim + 1
+		cfg.frameKinds[0] = []int{c15KFin, c15KStop, small, c15KMaxData}
+		cfg.accept[0] = true
+		return cfg
+	}
+}
+
+// rel-out: locally opened streams. zeroRTT (client only): the remembered transport parameters
+// (without reset_stream_at) were restored, the server's actual ones (with reset_stream_at)
+// arrive as an operation - before or after the streams were opened, written to and reset.
+// Otherwise the peer's transport parameters are there from the start.
+func c15RelOut(p protocol.Perspective, t int, zeroRTT bool, small int, dq, dt int) func(bool) *c15Cfg {
+	return func(th bool) *c15Cfg {
+		cfg := &c15Cfg{pers: p, lim: [2]int{2, 2}, app: true, fine: true, rsa: true, tparams: zeroRTT, restore: zeroRTT, tpStart: !zeroRTT, zeroWin: true, noCancelR: true, tp: [2]int{1, 1}, depth: c15Pick(th, dq, dt)}
+		cfg.frameMax[2+t] = 1
+		cfg.frameKinds[2+t] = []int{c15KStop, small, c15KMaxData}
+		if t == 0 {
+			cfg.frameKinds[2+t] = []int{c15KFin, c15KStop, small, c15KMaxData}
+		}
+		cfg.open[t] = true
+		return cfg
+	}
+}
+
 // mixed: everything together, including 0-RTT rejection and CloseWithError.
 func c15Mixed(p protocol.Perspective, kinds []int, dq, dt int) func(bool) *c15Cfg {
 	return func(th bool) *c15Cfg {
@@ -207,6 +254,10 @@ func TestVerifC15(t *testing.T) {
 		c15Part("in-uni-cli-l3", c15InUni(cli, 3, 6, 9)),
 		c15Part("in-bidi-cli-l2", c15InBidi(cli, 2, 7, 9)),
 		c15Part("in-bidi-srv-l3", c15InBidi(srv, 3, 5, 8)),
+		c15Part("rel-in-bidi-srv-l1", c15RelIn(srv, 1, c15KMaxData1, 10, 12)),
+		c15Part("rel-in-bidi-cli-l2", c15RelIn(cli, 2, c15KMaxData3, 7, 9)),
+		c15Part("rel-out-uni-cli", c15RelOut(cli, 1, true, c15KMaxData1, 10, 12)),
+		c15Part("rel-out-bidi-srv", c15RelOut(srv, 0, false, c15KMaxData3, 10, 11)),
 		c15Part("mixed-srv", c15Mixed(srv, []int{c15KFin, c15KStop}, 5, 6)),
 		c15Part("mixed-cli", c15Mixed(cli, []int{c15KReset, c15KMaxData}, 5, 6)),
 	}, func(msg string) { t.Fatal(msg) })
